@@ -256,15 +256,17 @@ func c14Accounting(e *core.Env, r *core.Rand, d *gen.Out) {
 		e.Violation("tags-row-unexpected", fmt.Sprintf("`klog tags -v -c` shows %d rows, expected %d\n%s", len(gotMap), len(want), res.Out), w)
 		return
 	}
-	// name order: bare rows in ascending name order
-	var names []string
+	// every tag and every tag=value has one row of its own (the order of the rows is not part of the property: klog
+	// sorts by name+"="+value, which puts #t10 in front of #t1; an earlier version of this check demanded ascending
+	// names and raised a false alarm on such names)
+	seenRow := map[ref.Tag]bool{}
 	for _, g := range got {
-		if g.value == "" {
-			names = append(names, g.name)
+		k := ref.Tag{Name: g.name, Value: g.value}
+		if seenRow[k] && !c14ValueCollision(want) {
+			e.Violation("tags-row-duplicated", fmt.Sprintf("`klog tags -v -c` lists %s twice\n%s", ref.CanonicalTag(k), res.Out), w)
+			return
 		}
-	}
-	if !sort.StringsAreSorted(names) {
-		e.Violation("tags-rows-unordered", fmt.Sprintf("tag rows are not ordered by name: %q", names), w)
+		seenRow[k] = true
 	}
 	// filter agrees with accounting
 	keys := make([]ref.Tag, 0, len(want))
